@@ -275,6 +275,32 @@ class Check:
         return rc
 
 
+class ImplHang(BaseException):
+    """raised by the watchdog inside a call into the implementation (BaseException: not swallowed by `except Exception`)"""
+
+
+class watchdog:
+    """`with watchdog(20): call_into_the_tool()` - a call that does not return within the limit raises ImplHang, which the
+    harnesses report as the outcome 'hang' (a violation wherever the property says the tool terminates)"""
+
+    def __init__(self, seconds):
+        self.seconds = seconds
+
+    def __enter__(self):
+        import signal
+
+        def on_alarm(*a):
+            raise ImplHang("no return within %d s" % self.seconds)
+        self.old = signal.signal(signal.SIGALRM, on_alarm)
+        signal.alarm(self.seconds)
+
+    def __exit__(self, *a):
+        import signal
+        signal.alarm(0)
+        signal.signal(signal.SIGALRM, self.old)
+        return False
+
+
 def run_check(fn, prop):
     """entry wrapper: exit 2 on harness trouble"""
     try:
